@@ -1,4 +1,5 @@
 import CoapLite.Model.CodecLow
+import CoapLite.Model.CodecEncLow
 import CoapLite.Driver.Util
 import CoapLite.Driver.Tbl
 import CoapLite.Model.Codec
@@ -111,7 +112,13 @@ def pkt (ws : List String) : String :=
   match ws with
   | "enc" :: lim :: spec =>
     match buildSpec spec with
-    | .ok p => showBytes (enc p (parseLimit lim))
+    | .ok p =>
+      -- the low-level model of the serialiser (fixed-width arithmetic, vectors with a capacity, raw copies
+      -- that panic outside the allocation) is run as well; it must agree (C04 proves it does)
+      let n := (p.options.map (fun kv => kv.2.length)).sum
+      let lowOk := if n ≤ 2000 then decide (CodecEncLow.encLow p (parseLimit lim) = enc p (parseLimit lim)) else true
+      if !lowOk then "LOW-LEVEL-MODEL-DISAGREES" else
+      showBytes (enc p (parseLimit lim))
     | _ => "panic"
   | "trace" :: lim :: spec =>
     match buildSpec spec with
